@@ -84,7 +84,13 @@ def c01Txs (args : List String) (impl : String) : Answer :=
         if impl.startsWith "panic" then "false:panic"
         else match (fieldD f "n").toNat? with
           | none => "false:no-count"
-          | some n => if n > bs.length then "false:consumed>supplied" else "true"
+          | some n =>
+            if n > bs.length then "false:consumed>supplied"
+            -- an accepted list is consumed to exactly the end of its last transaction and holds as many as announced
+            else if impl.startsWith "ok" && model.startsWith "ok" &&
+                (fieldD f "n" != fieldD (model.splitOn " ") "n" || fieldD f "c" != fieldD (model.splitOn " ") "c") then
+              "false:list-not-consumed-to-the-end-of-its-last-transaction"
+            else "true"
       (model, pred)
   | _ => ("bad-op", "n/a")
 
